@@ -130,6 +130,10 @@ class FnSpec:
             return None
         return self.finding_classes(ctx).get(name)
 
+    def on_assign(self, eng, name, value, node):
+        """hook: a contract may give a local variable a more abstract representation when it is first bound"""
+        return value
+
     def make_globals(self, eng):
         """per-path mutable global state (module variables the function reads or writes)"""
         return {}
@@ -1378,7 +1382,7 @@ def havoc_value(eng, v, base="h"):
         for f in nv.ty.invariant(nv.term):
             eng.assume(f)
         return nv
-    if isinstance(v, (MapVal, SeqBox, ObjVal)):
+    if isinstance(v, (MapVal, SeqBox, ObjVal)) or hasattr(v, "vc_havoc"):
         havoc(eng, v)
         return v
     if v is None:
@@ -1398,7 +1402,9 @@ def havoc_value(eng, v, base="h"):
 
 
 def havoc(eng, box):
-    if isinstance(box, MapVal):
+    if hasattr(box, "vc_havoc"):
+        box.vc_havoc(eng)
+    elif isinstance(box, MapVal):
         f = MapVal.fresh("hv", box.kty, box.vty, with_card=box.card is not None, with_keys=box.keys is not None, ordered=box.ordered)
         box.dom, box.val, box.card, box.keys = f.dom, f.val, f.card, f.keys
         light, heavy = box.axioms()
